@@ -679,6 +679,11 @@ func check(prop, tier string, seed int64, replay string, budget time.Duration, w
 						"VERIF_RUN_FROM=" + strconv.Itoa(from), "VERIF_RUN_TO=" + strconv.Itoa(1<<30),
 						"VERIF_RUN_STRIDE=" + strconv.Itoa(workers), "VERIF_TIER=" + tier,
 						"VERIF_BUDGET_MS=" + strconv.FormatInt(left.Milliseconds(), 10)}
+					if flavour == "P" && wi%2 == 1 {
+						// Production-constant runs also under a zone with daylight
+						// saving: clock code must not depend on the local zone.
+						env = append(env, "TZ=America/New_York")
+					}
 					o := runWorker(bin, env, outDir, name, left+10*time.Minute)
 					if o.exit == 0 {
 						return
